@@ -488,6 +488,12 @@ package bkl
 //@     invariant (=> (quiet m (- depth 1)) (forall ((j String)) (=> (select visited j) (= (select (mc ret) j) (ite (= (dropF (select (mc m) j)) VNil) VAbsent (dropF (select (mc m) j)))))))   [C06]
 //@     invariant (=> (quiet m (- depth 1)) (forall ((j String)) (=> (not (select visited j)) (= (select (mc ret) j) VAbsent))))   [C06]
 //@   decreases (- 1002 depth) 9
+//@   at call process2Encode#1
+//@     assert (and (not (= v@arg VAbsent)) (= (select (mapOf obj@arg) "$encode") VAbsent))                  [C14]
+//@   at call process2Decode#1
+//@     assert (and (not (= v@arg VAbsent)) (= (select (mapOf obj@arg) "$decode") VAbsent) (= (select (mapOf obj@arg) "$encode") VAbsent))   [C14]
+//@   at call process2MapValue#1
+//@     assert (and (not (= v@arg VAbsent)) (= (mlen (mapOf obj@arg)) 0))                                     [C14]
 //@ func process2MapValue(obj, mergeFrom, mergeFromDocs, ec, v, depth) (res, err)
 //@   decreases (- 1002 depth) 1
 //@ func process2Encode(obj, mergeFrom, mergeFromDocs, ec, v, depth) (res, err)
@@ -520,6 +526,9 @@ package bkl
 //@     invariant ((_ is VList) ret)
 //@     invariant (=> (quiet l (- depth 1)) (and (= (app (ls ret) (dropL rest)) (dropL (ls l))) (escL rest)))   [C06]
 //@   decreases (- 1002 depth) 9
+//@   at call process2Encode#1
+//@     assert (and (= v@arg (plmvV (ls obj@pre) "$encode" VNil)) (not (= v@arg VNil))                       [C14]
+//@                 (= obj@arg (VList (plmvR (ls obj@pre) "$encode"))))
 //@ func process2RepeatObjMap(v, mergeFrom, mergeFromDocs, ec, k, r, depth) (res, err)
 //@   decreases (- 1002 depth) 2
 //@   ensures (=> (not ((_ is VInt) r)) (isErr err))                                                       [C12]
@@ -825,9 +834,15 @@ package bkl
 //@ func popListMapValue(l, k) (val, rest, err)
 //@   uses appNil, snocApp
 //@   ensures (=> (not (anyKeyL (ls l) k)) (and (not (isErr err)) (= val VNil) (= rest l)))              [C06]
+//@   ensures (= (isErr err) (plmvE (ls l) k VNil))                                                       [C12] [C14] [C10]
+//@   ensures (=> (isErr err) (= err ErrExtraKeys))
+//@   ensures (=> (not (isErr err)) (and (= val (plmvV (ls l) k VNil)) (= rest (VList (plmvR (ls l) k)))))  [C12] [C14] [C10]
 //@   call filterList#1
 //@     invariant ((_ is VList) ret)
 //@     invariant (=> (not (anyKeyL (ls l) k)) (and (= (app (ls ret) rest) (ls l)) (= ret@outer VNil) (not (anyKeyL rest k))))   [C06]
+//@     invariant (= (plmvE rest k ret@outer) (plmvE (ls l) k VNil))
+//@     invariant (= (plmvV rest k ret@outer) (plmvV (ls l) k VNil))
+//@     invariant (= (app (ls ret) (plmvR rest k)) (plmvR (ls l) k))
 
 // ------------------------------------------------------------------------------------------------- document.go, evalcontext.go (allocation)
 
